@@ -186,7 +186,7 @@ def compute_unwindset(name, slot_dir, kk, log_path):
         elif 'DefaultPrechecker' in lid and 'pinned' in lid:
             n = 6
         elif 'Walker' in lid and 'set_board_pos' in lid:
-            n = 11                                       # chains of at most 9 moves in the walker harnesses
+            n = kp + 2                                   # walker harnesses pass the chain length as kp
         elif 'retain' in lid or ('ArrayVec' in lid and 'drop' not in lid):
             n = 8 + 12 * kp + 27 * kn * 3 + 8 * kn + 10
         if n is not None:
